@@ -32,37 +32,45 @@ class ProgProp:
     def setup(self, ctx):
         pass
 
-    def strategy(self, ctx):
+    def kind_strategy(self, ctx, k, v):
+        """the generator of one (kind, version) stratum"""
         max_size = 30000 if ctx.tier == "quick" else 150000
-        versions = self.versions
-
-        asm_kinds = ["asm", "asm", "asmold"] if self.use_asm else []
-        tab_kinds = ["table", "table"] if self.use_tables else []
-
-        @st.composite
-        def case(draw):
-            v = draw(st.sampled_from(versions))
-            k = draw(st.sampled_from(["prog", "prog", "prog", "stdlib", "stdlib"] + asm_kinds + tab_kinds))
-            if k == "table":
-                vtup = pd.vt(v)
-                if vtup >= (3, 11):
+        if k == "table":
+            vtup = pd.vt(v)
+            if vtup >= (3, 11):
+                @st.composite
+                def loc(draw):
                     first = draw(st.sampled_from([1, 1, 5, 1000]))
                     return {"k": "loctab", "v": v, "first": first, "entries": draw(gt.loctab_entries(first)),
                             "exc": draw(gt.exctab_entries())}
-                c = draw(gt.lnotab_cases(vtup))
-                c.update({"k": "lnotab", "v": v})
-                return c
-            if k == "asm":
-                return {"k": "asm", "v": v, "items": draw(ga.asm_cases(v, self.tables(ctx, v)))}
-            if k == "asmold":
-                ov = draw(st.sampled_from(OLD_ASM))
-                return {"k": "asmold", "v": ov, "items": draw(ga.asm_cases(ov, self.old_tables(ctx, ov)))}
-            if k == "prog":
-                src = draw(gp.programs(v, size=draw(st.integers(2, 5))))
-                return {"k": "prog", "v": v, "src": src}
-            files = pd.stdlib_files(ctx, v, max_size)
-            return {"k": "stdlib", "v": v, "path": draw(st.sampled_from(files))}
-        return case()
+                return loc()
+            return gt.lnotab_cases(vtup).map(lambda c: dict(c, k="lnotab", v=v))
+        if k == "asm":
+            return ga.asm_cases(v, self.tables(ctx, v)).map(lambda items: {"k": "asm", "v": v, "items": items})
+        if k == "asmold":
+            return ga.asm_cases(v, self.old_tables(ctx, v)).map(lambda items: {"k": "asmold", "v": v, "items": items})
+        if k == "prog":
+            return st.integers(2, 5).flatmap(lambda n: gp.programs(v, size=n)).map(lambda src: {"k": "prog", "v": v, "src": src})
+        files = pd.stdlib_files(ctx, v, max_size)
+        return st.sampled_from(files).map(lambda path: {"k": "stdlib", "v": v, "path": path})
+
+    def strata(self, ctx):
+        """[label, strategy, weight] per (kind, version): see Runner.run_hypothesis"""
+        out = []
+        for v in self.versions:
+            out.append(["prog:" + v, self.kind_strategy(ctx, "prog", v), 3])
+            out.append(["stdlib:" + v, self.kind_strategy(ctx, "stdlib", v), 2])
+            if self.use_asm:
+                out.append(["asm:" + v, self.kind_strategy(ctx, "asm", v), 2])
+            if self.use_tables:
+                out.append(["table:" + v, self.kind_strategy(ctx, "table", v), 2])
+        if self.use_asm:
+            for ov in OLD_ASM:
+                out.append(["asmold:" + ov, self.kind_strategy(ctx, "asmold", ov), 1])
+        return out
+
+    def strategy(self, ctx):
+        return st.one_of([s for _, s, _ in self.strata(ctx)])
 
     use_asm = False
     use_tables = False
@@ -263,6 +271,8 @@ class ProgProp:
                          {"op": fwd, "arg": 0, "pre": 0, "to": -1}, {"op": back, "arg": 0, "pre": 0, "to": 0},
                          {"op": back, "arg": 0, "pre": 0, "to": 2}, {"op": "NOP", "arg": None, "pre": 0, "to": None}]
                 yield {"k": "asmold" if old else "asm", "v": v, "items": items}
+                for items in ga.jump_patterns(tab):
+                    yield {"k": "asmold" if old else "asm", "v": v, "items": items}
 
     def judge_corpus_internal(self, case, ctx):
         """corpus files (incl. versions with no interpreter): oracles internal to the decoded stream"""
